@@ -22,7 +22,7 @@ func constInt(info *types.Info, e ast.Expr) (int64, bool) {
 		return 0, false
 	}
 	if tv.Value.Kind() == constant.Int {
-		return constant.Int64Val(tv.Value)
+		return cInt64(tv.Value)
 	}
 	return 0, false
 }
@@ -172,6 +172,46 @@ func regTok(w *World, r *EngineResult) {
 						continue
 					}
 				}
+				// tok = reserved[name], or tok = v with v, ok := reserved[name]
+				fromTable := func(e ast.Expr) bool {
+					ix, ok := ast.Unparen(e).(*ast.IndexExpr)
+					if !ok {
+						return false
+					}
+					id, ok := ix.X.(*ast.Ident)
+					if !ok {
+						return false
+					}
+					v, ok := lp.TypesInfo.ObjectOf(id).(*types.Var)
+					return ok && v.Parent() == lp.Types.Scope()
+				}
+				tableValue := fromTable(rhs)
+				if id, ok := rhs.(*ast.Ident); ok && !tableValue {
+					obj := lp.TypesInfo.ObjectOf(id)
+					defs, fromTab := 0, 0
+					ast.Inspect(file, func(m ast.Node) bool {
+						as2, ok := m.(*ast.AssignStmt)
+						if !ok {
+							return true
+						}
+						for li, l2 := range as2.Lhs {
+							if id2, ok := l2.(*ast.Ident); ok && lp.TypesInfo.ObjectOf(id2) == obj {
+								defs++
+								if len(as2.Rhs) == 1 && li == 0 && fromTable(as2.Rhs[0]) {
+									fromTab++
+								}
+							}
+						}
+						return true
+					})
+					tableValue = defs > 0 && defs == fromTab
+				}
+				if tableValue && len(reservedVals) > 0 {
+					for c := range reservedVals {
+						produced[c] = where + " (reserved word table)"
+					}
+					continue
+				}
 				// tok = v.(rune) where v comes from the reserved table
 				if ta, ok := rhs.(*ast.TypeAssertExpr); ok {
 					_ = ta
@@ -200,11 +240,52 @@ func regTok(w *World, r *EngineResult) {
 	// consumed kinds: case constants of switches in the read primitive whose tag is a rune field of Parser
 	consumed := map[int64]bool{}
 	hasDefaultErr := false
+	// the read switch: the switch over a rune field of Parser with the most cases, in the
+	// token reader or in a function of package parser it calls (the conversion may live in
+	// a helper of its own)
 	var readDecl *ast.FuncDecl
-	w.eachFuncDecl(func(p *packages.Package, d *ast.FuncDecl) {
-		if obj, ok := p.TypesInfo.Defs[d.Name].(*types.Func); ok && w.SSAFunc(obj) == readFn {
-			readDecl = d
+	var readSwitch *ast.SwitchStmt
+	reach := map[*ssa.Function]bool{}
+	var mark func(f *ssa.Function, d int)
+	mark = func(f *ssa.Function, d int) {
+		if f == nil || reach[f] || d > 3 || pkgShort(f) != "parser" {
+			return
 		}
+		reach[f] = true
+		for _, b := range f.Blocks {
+			for _, ins := range b.Instrs {
+				if c, ok := ins.(*ssa.Call); ok {
+					mark(c.Call.StaticCallee(), d+1)
+				}
+			}
+		}
+	}
+	for f := range a.tokPrims {
+		mark(f, 0)
+	}
+	w.eachFuncDecl(func(p *packages.Package, d *ast.FuncDecl) {
+		obj, ok := p.TypesInfo.Defs[d.Name].(*types.Func)
+		if !ok || !reach[w.SSAFunc(obj)] {
+			return
+		}
+		ast.Inspect(d.Body, func(n ast.Node) bool {
+			sw, ok := n.(*ast.SwitchStmt)
+			if !ok || sw.Tag == nil {
+				return true
+			}
+			sel, ok := sw.Tag.(*ast.SelectorExpr)
+			if !ok {
+				return true
+			}
+			if v, ok := pp.TypesInfo.ObjectOf(sel.Sel).(*types.Var); !ok || !v.IsField() || !types.Identical(v.Type(), types.Typ[types.Rune]) {
+				return true
+			}
+			if readSwitch == nil || len(sw.Body.List) > len(readSwitch.Body.List) {
+				readSwitch, readDecl = sw, d
+				readFn = w.SSAFunc(obj)
+			}
+			return true
+		})
 	})
 	if readDecl == nil {
 		r.undecided("REG-tok", fnKey(readFn), "read switch", "syntax of the read primitive not found", "-")
@@ -227,18 +308,8 @@ func regTok(w *World, r *EngineResult) {
 			return true
 		})
 	}
-	ast.Inspect(readDecl.Body, func(n ast.Node) bool {
-		sw, ok := n.(*ast.SwitchStmt)
-		if !ok || sw.Tag == nil {
-			return true
-		}
-		sel, ok := sw.Tag.(*ast.SelectorExpr)
-		if !ok {
-			return true
-		}
-		if v, ok := pp.TypesInfo.ObjectOf(sel.Sel).(*types.Var); !ok || !v.IsField() || !types.Identical(v.Type(), types.Typ[types.Rune]) {
-			return true
-		}
+	{
+		sw := readSwitch
 		for _, c := range sw.Body.List {
 			cc := c.(*ast.CaseClause)
 			if cc.List == nil {
@@ -250,8 +321,7 @@ func regTok(w *World, r *EngineResult) {
 				}
 			}
 		}
-		return false
-	})
+	}
 	for c, where := range parserTokenStores {
 		produced[c] = where + " (parser end marker)"
 	}
@@ -369,6 +439,54 @@ func literalPredicates(w *World) (map[types.Object][]string, types.Object) {
 	if basePred == nil {
 		return out, nil
 	}
+	// plural base predicate: method with one []string parameter whose body tests
+	// slices.Contains(param, recv.ToString())
+	basePredPlural = nil
+	for _, file := range bp.Syntax {
+		for _, d := range file.Decls {
+			fd, ok := d.(*ast.FuncDecl)
+			if !ok || fd.Recv == nil || fd.Body == nil || fd.Type.Params.NumFields() != 1 || len(fd.Type.Params.List[0].Names) != 1 {
+				continue
+			}
+			pobj := info.ObjectOf(fd.Type.Params.List[0].Names[0])
+			sl, ok := pobj.Type().Underlying().(*types.Slice)
+			if !ok {
+				continue
+			}
+			if b, ok := sl.Elem().Underlying().(*types.Basic); !ok || b.Kind() != types.String {
+				continue
+			}
+			// every return is `false` or the membership test
+			okBody, hasTest := true, false
+			ast.Inspect(fd.Body, func(n ast.Node) bool {
+				ret, ok := n.(*ast.ReturnStmt)
+				if !ok || len(ret.Results) != 1 {
+					return true
+				}
+				if tv := info.Types[ret.Results[0]]; tv.Value != nil && tv.Value.Kind() == constant.Bool && !cBool(tv.Value) {
+					return true
+				}
+				call, ok := ast.Unparen(ret.Results[0]).(*ast.CallExpr)
+				if ok && len(call.Args) == 2 {
+					if fn, _ := typeutil.Callee(info, call).(*types.Func); fn != nil && fn.FullName() == "slices.Contains" {
+						id, ok1 := ast.Unparen(call.Args[0]).(*ast.Ident)
+						c2, ok2 := ast.Unparen(call.Args[1]).(*ast.CallExpr)
+						if ok1 && ok2 && info.ObjectOf(id) == pobj {
+							if sel, ok := c2.Fun.(*ast.SelectorExpr); ok && sel.Sel.Name == "ToString" && len(c2.Args) == 0 {
+								hasTest = true
+								return true
+							}
+						}
+					}
+				}
+				okBody = false
+				return true
+			})
+			if okBody && hasTest {
+				basePredPlural = info.ObjectOf(fd.Name)
+			}
+		}
+	}
 	var lits func(e ast.Expr) ([]string, bool)
 	lits = func(e ast.Expr) ([]string, bool) {
 		switch x := e.(type) {
@@ -385,6 +503,11 @@ func literalPredicates(w *World) (map[types.Object][]string, types.Object) {
 				if callee == basePred && len(x.Args) == 1 {
 					if tv := info.Types[x.Args[0]]; tv.Value != nil && tv.Value.Kind() == constant.String {
 						return []string{constant.StringVal(tv.Value)}, true
+					}
+				}
+				if basePredPlural != nil && callee == basePredPlural && len(x.Args) == 1 {
+					if ls, ok := stringListLit(info, x.Args[0]); ok {
+						return ls, true
 					}
 				}
 				if ls, ok := out[callee]; ok && len(x.Args) == 0 {
@@ -463,6 +586,35 @@ func regDyn(w *World, r *EngineResult) {
 		}
 		// unchecked lookups
 		mapObjName := reg.global.Name()
+		dominatingLits := func(info *types.Info, stack []ast.Node, at ast.Node, recvObj types.Object) (need []string, found bool) {
+			for j := len(stack) - 1; j >= 0; j-- {
+				var cond ast.Expr
+				switch x := stack[j].(type) {
+				case *ast.CaseClause:
+					if len(x.List) == 1 {
+						cond = x.List[0]
+					}
+				case *ast.IfStmt:
+					if x.Body.Pos() <= at.Pos() && at.End() <= x.Body.End() {
+						cond = x.Cond
+					}
+				}
+				if cond == nil {
+					continue
+				}
+				for _, cj := range conjuncts(cond) {
+					ls, ok := litsOn(info, cj, recvObj, preds, basePred)
+					if ok {
+						need = ls
+						found = true
+					}
+				}
+				if found {
+					break
+				}
+			}
+			return
+		}
 		w.eachFuncDecl(func(p *packages.Package, d *ast.FuncDecl) {
 			info := p.TypesInfo
 			var stack []ast.Node
@@ -518,33 +670,11 @@ func regDyn(w *World, r *EngineResult) {
 					r.violated("REG-dyn", declKey(w, p, d), construct, "registry lookup without comma-ok whose key is not provably registered: a missing key yields a nil evaluator and the call on it panics", w.pos(ix.Pos()))
 					return true
 				}
-				var need []string
-				found := false
-				for j := len(stack) - 1; j >= 0; j-- {
-					var cond ast.Expr
-					switch x := stack[j].(type) {
-					case *ast.CaseClause:
-						if len(x.List) == 1 {
-							cond = x.List[0]
-						}
-					case *ast.IfStmt:
-						if x.Body.Pos() <= ix.Pos() && ix.End() <= x.Body.End() {
-							cond = x.Cond
-						}
-					}
-					if cond == nil {
-						continue
-					}
-					for _, cj := range conjuncts(cond) {
-						ls, ok := litsOn(info, cj, recvObj, preds, basePred)
-						if ok {
-							need = ls
-							found = true
-						}
-					}
-					if found {
-						break
-					}
+				need, found := dominatingLits(info, stack, ix, recvObj)
+				if !found {
+					// the key is a parameter: every call site must fix it (helper extracted
+					// from the dispatcher)
+					need, found = litsAtCallers(w, info, d, recvObj, dominatingLits)
 				}
 				if !found {
 					r.violated("REG-dyn", declKey(w, p, d), construct, "registry lookup without comma-ok and without a dominating predicate that fixes the key to registered literals", w.pos(ix.Pos()))
@@ -607,11 +737,36 @@ func litsOn(info *types.Info, e ast.Expr, recvObj types.Object, preds map[types.
 				return []string{constant.StringVal(tv.Value)}, true
 			}
 		}
+		if basePredPlural != nil && callee == basePredPlural && len(x.Args) == 1 {
+			if ls, ok := stringListLit(info, x.Args[0]); ok {
+				return ls, true
+			}
+		}
 		if ls, ok := preds[callee]; ok {
 			return ls, true
 		}
 	}
 	return nil, false
+}
+
+// basePredPlural: the base method that tests recv.ToString() ∈ its []string parameter.
+var basePredPlural types.Object
+
+// stringListLit: []string{"a", "b"} with constant elements.
+func stringListLit(info *types.Info, e ast.Expr) ([]string, bool) {
+	cl, ok := ast.Unparen(e).(*ast.CompositeLit)
+	if !ok || len(cl.Elts) == 0 {
+		return nil, false
+	}
+	var out []string
+	for _, el := range cl.Elts {
+		tv := info.Types[el]
+		if tv.Value == nil || tv.Value.Kind() != constant.String {
+			return nil, false
+		}
+		out = append(out, constant.StringVal(tv.Value))
+	}
+	return out, true
 }
 
 func ssaConstKey(v ssa.Value) string {
@@ -818,7 +973,7 @@ func regType(w *World, r *EngineResult) {
 	constName := map[int64]string{}
 	for _, n := range bp.Types.Scope().Names() {
 		if c, ok := bp.Types.Scope().Lookup(n).(*types.Const); ok {
-			if v, ok := constant.Int64Val(c.Val()); ok && c.Val().Kind() == constant.Int {
+			if v, ok := cInt64(c.Val()); ok && c.Val().Kind() == constant.Int {
 				if _, dup := constName[v]; !dup || strings.ToUpper(n) == n {
 					constName[v] = n
 				}
@@ -880,7 +1035,7 @@ func regType(w *World, r *EngineResult) {
 			if !ok || c.Pkg() == nil || c.Pkg().Path() != bp.PkgPath {
 				continue
 			}
-			if v, ok := constant.Int64Val(c.Val()); ok {
+			if v, ok := cInt64(c.Val()); ok {
 				// must be in a case clause or a comparison
 				if inCaseOrCompare(p, id) {
 					uses[v] = append(uses[v], w.pos(id.Pos()))
@@ -1152,19 +1307,84 @@ func regRounds(w *World, r *EngineResult) {
 	pp := w.Pkg("parser")
 	if pp != nil {
 		found := false
-		for _, file := range cp.Syntax {
+		// the reporting predicate, by role: the parameterless Context method tested by the
+		// parser method that takes an error and appends to a []error field
+		var pred types.Object
+		for _, file := range pp.Syntax {
 			for _, d := range file.Decls {
 				fd, ok := d.(*ast.FuncDecl)
-				if !ok || fd.Body == nil || fd.Name.Name != "IsCheckRound" {
+				if !ok || fd.Body == nil || fd.Recv == nil {
+					continue
+				}
+				takesErr := false
+				for _, f := range fd.Type.Params.List {
+					if t := pp.TypesInfo.TypeOf(f.Type); t != nil && types.Identical(t, errorType) {
+						takesErr = true
+					}
+				}
+				if !takesErr {
 					continue
 				}
 				ast.Inspect(fd.Body, func(nd ast.Node) bool {
-					if bl, ok := nd.(*ast.BasicLit); ok && bl.Kind == token.STRING {
+					ifs, ok := nd.(*ast.IfStmt)
+					if !ok {
+						return true
+					}
+					records := false
+					ast.Inspect(ifs.Body, func(m ast.Node) bool {
+						if as, ok := m.(*ast.AssignStmt); ok && len(as.Lhs) == 1 {
+							if sel, ok := as.Lhs[0].(*ast.SelectorExpr); ok {
+								if v, ok := pp.TypesInfo.ObjectOf(sel.Sel).(*types.Var); ok && v.IsField() {
+									if sl, ok := v.Type().Underlying().(*types.Slice); ok && types.Identical(sl.Elem(), errorType) {
+										records = true
+									}
+								}
+							}
+						}
+						return true
+					})
+					if !records {
+						return true
+					}
+					for _, cj := range conjuncts(ifs.Cond) {
+						if call, ok := ast.Unparen(cj).(*ast.CallExpr); ok && len(call.Args) == 0 {
+							if sel, ok := call.Fun.(*ast.SelectorExpr); ok {
+								if fo, ok := pp.TypesInfo.ObjectOf(sel.Sel).(*types.Func); ok && fo.Pkg() != nil && fo.Pkg().Path() == cp.PkgPath {
+									pred = fo
+								}
+							}
+						}
+					}
+					return true
+				})
+			}
+		}
+		for _, file := range cp.Syntax {
+			for _, d := range file.Decls {
+				fd, ok := d.(*ast.FuncDecl)
+				if !ok || fd.Body == nil || pred == nil || cp.TypesInfo.ObjectOf(fd.Name) != pred {
+					continue
+				}
+				fname := declKey(w, cp, fd)
+				ast.Inspect(fd.Body, func(nd ast.Node) bool {
+					be, ok := nd.(*ast.BinaryExpr)
+					if !ok || be.Op != token.EQL {
+						return true
+					}
+					for _, pair := range [][2]ast.Expr{{be.X, be.Y}, {be.Y, be.X}} {
+						sel, ok := pair[0].(*ast.SelectorExpr)
+						if !ok || cp.TypesInfo.ObjectOf(sel.Sel) != roundField {
+							continue
+						}
+						tv := cp.TypesInfo.Types[pair[1]]
+						if tv.Value == nil || tv.Value.Kind() != constant.String {
+							continue
+						}
 						found = true
-						if strings.Trim(bl.Value, `"`) == last {
-							r.holds("REG-rounds", "context.(Context).IsCheckRound", "reporting round is last", "diagnostics are recorded in round "+last+", the last element of the round list", w.pos(bl.Pos()))
+						if constant.StringVal(tv.Value) == last {
+							r.holds("REG-rounds", fname, "reporting round is last", "diagnostics are recorded in round "+last+", the last element of the round list", w.pos(be.Pos()))
 						} else {
-							r.violated("REG-rounds", "context.(Context).IsCheckRound", "reporting round is last", "diagnostics are recorded in a round that is not the last of "+fmt.Sprint(rounds), w.pos(bl.Pos()))
+							r.violated("REG-rounds", fname, "reporting round is last", "diagnostics are recorded in a round that is not the last of "+fmt.Sprint(rounds), w.pos(be.Pos()))
 						}
 					}
 					return true
@@ -1178,4 +1398,94 @@ func regRounds(w *World, r *EngineResult) {
 	r.Stats["round_comparisons"] = n
 	r.Stats["rounds"] = len(rounds)
 	r.floor("round_comparisons", 5)
+}
+
+
+// litsAtCallers: recvObj is a parameter of d; every call of d in the module passes an
+// identifier on which a dominating predicate fixes the key. The literals of all call sites
+// are joined; no call site, a call site without such a predicate, or a use of d as a value
+// gives no answer.
+func litsAtCallers(w *World, info *types.Info, d *ast.FuncDecl, recvObj types.Object, dom func(*types.Info, []ast.Node, ast.Node, types.Object) ([]string, bool)) ([]string, bool) {
+	fobj := info.ObjectOf(d.Name)
+	idx := -1
+	n := 0
+	if d.Type.Params != nil {
+		for _, f := range d.Type.Params.List {
+			for _, nm := range f.Names {
+				if info.ObjectOf(nm) == recvObj {
+					idx = n
+				}
+				n++
+			}
+		}
+	}
+	if fobj == nil || idx < 0 {
+		return nil, false
+	}
+	var all []string
+	sites, bad := 0, false
+	w.eachFuncDecl(func(p2 *packages.Package, d2 *ast.FuncDecl) {
+		info2 := p2.TypesInfo
+		var stack []ast.Node
+		ast.Inspect(d2.Body, func(n ast.Node) bool {
+			if n == nil {
+				stack = stack[:len(stack)-1]
+				return true
+			}
+			stack = append(stack, n)
+			switch x := n.(type) {
+			case *ast.CallExpr:
+				var callee types.Object
+				switch f := ast.Unparen(x.Fun).(type) {
+				case *ast.Ident:
+					callee = info2.ObjectOf(f)
+				case *ast.SelectorExpr:
+					callee = info2.ObjectOf(f.Sel)
+				}
+				if callee != fobj {
+					return true
+				}
+				sites++
+				if idx >= len(x.Args) {
+					bad = true
+					return true
+				}
+				id, ok := ast.Unparen(x.Args[idx]).(*ast.Ident)
+				if !ok {
+					bad = true
+					return true
+				}
+				ls, ok := dom(info2, stack, x, info2.ObjectOf(id))
+				if !ok {
+					bad = true
+					return true
+				}
+				all = append(all, ls...)
+			case *ast.Ident:
+				// the function used as a value (not the Fun of a call): unknown callers
+				if info2.Uses[x] == fobj && len(stack) >= 2 {
+					isFun := false
+					switch par := stack[len(stack)-2].(type) {
+					case *ast.CallExpr:
+						isFun = ast.Unparen(par.Fun) == ast.Expr(x)
+					case *ast.SelectorExpr:
+						if len(stack) >= 3 {
+							if c, ok := stack[len(stack)-3].(*ast.CallExpr); ok && ast.Unparen(c.Fun) == ast.Expr(par) {
+								isFun = true
+							}
+						}
+					}
+					if !isFun {
+						bad = true
+					}
+				}
+			}
+			return true
+		})
+	})
+	if bad || sites == 0 {
+		return nil, false
+	}
+	sort.Strings(all)
+	return dedupe(all), true
 }
